@@ -312,9 +312,13 @@ package buffer
 //@   ghostset #E_L = old(writer.#eL) if old(writer.err) == nil && result == nil && old(writer.#ft) == 'E'
 //@   ghostset #E_R = old(writer.#eR) if old(writer.err) == nil && result == nil && old(writer.#ft) == 'E'
 //@   ghostset #E_n = old(writer.#en) if old(writer.err) == nil && result == nil && old(writer.#ft) == 'E'
+//@   ensures [auth-code] {C01} (old(writer.err) == nil && result == nil && old(writer.#ft) == 'R' && old(writer.frame.#blen) >= 9) ==> (#authR == old(mbe32(bufarr(writer.frame), 5)) && #nAuthOk == old(#nAuthOk) + (old(mbe32(bufarr(writer.frame), 5)) == 0 ? 1 : 0))
+//@   ensures [auth-kept] {C01} !(old(writer.err) == nil && result == nil && old(writer.#ft) == 'R' && old(writer.frame.#blen) >= 9) ==> (#authR == old(#authR) && #nAuthOk == old(#nAuthOk))
+//@   ghostset #authR = old(mbe32(bufarr(writer.frame), 5)) if old(writer.err) == nil && result == nil && old(writer.#ft) == 'R' && old(writer.frame.#blen) >= 9
+//@   ghostset #nAuthOk = old(#nAuthOk) + 1 if old(writer.err) == nil && result == nil && old(writer.#ft) == 'R' && old(writer.frame.#blen) >= 9 && old(mbe32(bufarr(writer.frame), 5)) == 0
 //@   ensures [fail-stop] old(#failed) ==> result != nil
 //@   ensures [err-kind] (old(writer.err) == nil && result != nil) ==> SinkErr(result)
-//@   modifies writer.err, writer.frame.#blen, bufbytes(writer.frame, 1), #nOut, #nZ, #nE, #last, #cyc, #failed, #E_mask, #E_S, #E_C, #E_M, #E_D, #E_H, #E_F, #E_L, #E_R, #E_n
+//@   modifies writer.err, writer.frame.#blen, bufbytes(writer.frame, 1), #nOut, #nZ, #nE, #last, #cyc, #failed, #authR, #nAuthOk, #E_mask, #E_S, #E_C, #E_M, #E_D, #E_H, #E_F, #E_L, #E_R, #E_n
 
 // errors.As walks the wrap chain with reflection; its effect is specified, not verified.
 //@ func UnwrapMessageSizeExceeded
